@@ -1,4 +1,4 @@
-import RV.Proofs.TreeNode
+import RV.Proofs.TreePids
 /-!
 # C10 — z.Tree is a correct uint64 map with an exact DeleteBelow
 
@@ -31,6 +31,216 @@ theorem node_set_correct {β : Type} (maxKeys : Nat) (es : List (Key × β)) (k 
     (hlen : es.length < maxKeys ∨ (hasKey es k = true ∧ es.length ≤ maxKeys)) :
     nodeSet maxKeys es k v = some (ins es k v, if hasKey es k then 0 else 1) :=
   nodeSet_eq_ins maxKeys es k v lo hs hk hmk hlen
+
+/-! ## The tree as a map (every page size with `4 ≤ maxKeys < 2^31`, every height, with splits) -/
+
+/-- `tree_inv` (ordering part): `TreeInv cfg t` — the root is an inner node ending in
+`absoluteMax`; in every node the keys are strictly increasing; every inner entry has a non-nil,
+non-empty child all of whose keys lie in (previous routing key, its key] and whose last key is
+that key; every node holds fewer than `maxKeys` keys; the model has not faulted.
+It holds for a new / reset tree … -/
+theorem c10_inv_new (cfg : Cfg) (hc : CfgOk cfg) (curSz : Nat) :
+    TreeInv cfg (newTree cfg) ∧ TreeInv cfg (reset cfg curSz) :=
+  ⟨(reset_spec hc _).1, (reset_spec hc _).1⟩
+
+/-- … and is preserved by `Set` of any legal key (including node splits at every level, the root
+split, recycled pages and growth of the buffer: the allocator state is arbitrary). -/
+theorem c10_inv_set (cfg : Cfg) (hc : CfgOk cfg) (t : Tree) (hinv : TreeInv cfg t) (k : Key) (v : Val)
+    (hk : setKeyPanic k = false) : TreeInv cfg (set cfg t k v) :=
+  (set_spec hc t k v hinv hk).1
+
+/-- `Get` after `Set`: the value just set for `k`, everything else unchanged.  Keys range over
+`[1, 2^64-2]` (`setKeyPanic`/`getKeyPanic` are the generated panic conditions of `Set`/`Get`). -/
+theorem c10_get_set (cfg : Cfg) (hc : CfgOk cfg) (t : Tree) (hinv : TreeInv cfg t) (k k' : Key) (v : Val)
+    (hk : setKeyPanic k = false) (hk' : getKeyPanic k' = false) :
+    get (set cfg t k v) k' = if k' = k then some v else get t k' := by
+  obtain ⟨hinv', hl, _⟩ := set_spec hc t k v hinv hk
+  rw [get_spec hc _ hinv' k' hk', get_spec hc t hinv k' hk']
+  unfold abs
+  rw [hl, lookupD_ins]
+  split <;> rfl
+
+/-- A new tree and a tree after `Reset` are empty: every legal key reads 0. -/
+theorem c10_reset (cfg : Cfg) (hc : CfgOk cfg) (curSz : Nat) (k : Key) (hk : getKeyPanic k = false) :
+    get (newTree cfg) k = some 0#64 ∧ get (reset cfg curSz) k = some 0#64 := by
+  have h1 := reset_spec hc (minSize.toNat)
+  have h2 := reset_spec hc curSz
+  exact ⟨by rw [newTree, get_spec hc _ h1.1 k hk, abs_of_toList_sentinel h1.2],
+         by rw [get_spec hc _ h2.1 k hk, abs_of_toList_sentinel h2.2]⟩
+
+/-- `DeleteBelow(ts)` removes exactly the keys whose value is below `ts` and changes nothing
+else (a kept max key whose value is below `ts` becomes a placeholder and reads 0).  The invariant
+is preserved, and no page becomes live that was not live before.
+Hypothesis `hp`: the page ids of the live nodes are representable and non-zero (a page id that
+is 0 as a 64-bit word would be taken for the nil page by `n.compact(1)`); it is part of the page
+invariant `PidInv` (see `c10_pid_inv_*`). -/
+theorem c10_delete_below (cfg : Cfg) (hc : CfgOk cfg) (t : Tree) (hinv : TreeInv cfg t)
+    (hp : ∀ p ∈ pids t.root, PosPid p) (ts : Val) (k : Key) (hk : getKeyPanic k = false) :
+    TreeInv cfg (deleteBelow t ts) ∧
+    (∃ v, get t k = some v ∧ get (deleteBelow t ts) k = some (if v < ts then 0#64 else v)) := by
+  obtain ⟨h1, h2, _⟩ := deleteBelow_spec hc t hinv hp ts
+  exact ⟨h1, abs t k, get_spec hc t hinv k hk, by rw [get_spec hc _ h1 k hk, h2 k]⟩
+
+/-- `IterateKV(f)`: the callback is handed the pairs `visits t`; their keys are strictly increasing
+(so no key is visited twice), a pair is visited exactly if it is live (`Get` returns that non-zero
+value), and afterwards exactly the non-zero answers of the callback are installed. -/
+theorem c10_iterate (cfg : Cfg) (hc : CfgOk cfg) (t : Tree) (hinv : TreeInv cfg t) (f : Key → Val → Val) :
+    TreeInv cfg (iterateKV t f) ∧ SortedFrom 0#64 (visits t) ∧
+    (∀ k v, getKeyPanic k = false → ((k, v) ∈ visits t ↔ (v ≠ 0#64 ∧ get t k = some v))) ∧
+    (∀ k, getKeyPanic k = false → ∃ v, get t k = some v ∧
+      get (iterateKV t f) k = some (if v = 0#64 then 0#64 else if f k v ≠ 0#64 then f k v else v)) := by
+  obtain ⟨h1, h2, h3, _⟩ := iterateKV_spec t hinv f
+  have hs := (okNode_toList cfg.maxKeys t.root _ _ _ hinv.ok).1
+  refine ⟨h1, by rw [h2]; exact sortedFrom_filter _ hs, ?_, ?_⟩
+  · intro k v hk
+    rw [get_spec hc t hinv k hk, h2, List.mem_filter]
+    unfold abs iterSkip
+    constructor
+    · rintro ⟨hm, hv⟩
+      have hv' : v ≠ 0#64 := by simpa using hv
+      exact ⟨hv', by rw [(mem_iff_lookupD hs k v hv').mp hm]⟩
+    · rintro ⟨hv, hg⟩
+      injection hg with hg
+      exact ⟨(mem_iff_lookupD hs k v hv).mpr hg, by simpa using hv⟩
+  · intro k hk
+    refine ⟨abs t k, get_spec hc t hinv k hk, ?_⟩
+    rw [get_spec hc _ h1 k hk]
+    unfold abs
+    rw [h3, lookupD_map_rewrite]
+    unfold rewrite iterSkip iterWrite
+    by_cases hv : lookupD (toList t.root) k = 0#64
+    · simp [hv]
+    · simp only [beq_iff_eq, hv, if_false]
+      by_cases hf : f k (lookupD (toList t.root) k) = 0#64
+      · simp [hf]
+      · simp [hf]
+
+/-! ## Pages: never handed out twice, never leaked -/
+
+/-- `tree_inv` (page part): `PidInv t` — counted with multiplicity, the page ids of the live
+nodes plus the free list are exactly the pages `1 … nextPage-1`.  Consequently the live page
+ids are pairwise distinct, disjoint from the duplicate-free free list, all below the frontier,
+and every page below the frontier is live or free. -/
+theorem c10_pid_inv_meaning (t : Tree) (h : PidInv t) :
+    (pids t.root ++ t.a.free).Nodup ∧ ∀ p, p ∈ pids t.root ++ t.a.free ↔ (1 ≤ p ∧ p < t.a.nextPage) :=
+  ⟨h.nodup, h.mem_iff⟩
+
+/-- The page invariant holds initially and is preserved by every operation, whatever pages
+`Set` takes from the free list or the frontier and whatever `DeleteBelow` releases.
+(`DeleteBelow` needs page ids to fit a 64-bit word: fewer than 2^64 pages were ever allocated.) -/
+theorem c10_pid_inv_preserved (cfg : Cfg) (hc : CfgOk cfg) :
+    (∀ curSz, PidInv (reset cfg curSz)) ∧ PidInv (newTree cfg) ∧
+    (∀ t k v, TreeInv cfg t → setKeyPanic k = false → PidInv t → PidInv (set cfg t k v)) ∧
+    (∀ t ts, TreeInv cfg t → PidInv t → t.a.nextPage ≤ 2 ^ 64 → PidInv (deleteBelow t ts)) ∧
+    (∀ t f, TreeInv cfg t → PidInv t → PidInv (iterateKV t f)) :=
+  ⟨fun c => reset_pidInv hc c, reset_pidInv hc _,
+   fun t k v hi hk hp => set_pidInv hc t k v hi hk hp,
+   fun t ts hi hp hn => deleteBelow_pidInv hc t ts hi hp hn,
+   fun t f hi hp => iterateKV_pidInv t f hi hp⟩
+
+/-- `c10_delete_below` with its page hypothesis discharged from the page invariant. -/
+theorem c10_delete_below_of_pid_inv (cfg : Cfg) (hc : CfgOk cfg) (t : Tree) (hinv : TreeInv cfg t) (hp : PidInv t)
+    (hn : t.a.nextPage ≤ 2 ^ 64) (ts : Val) (k : Key) (hk : getKeyPanic k = false) :
+    TreeInv cfg (deleteBelow t ts) ∧
+    (∃ v, get t k = some v ∧ get (deleteBelow t ts) k = some (if v < ts then 0#64 else v)) :=
+  c10_delete_below cfg hc t hinv (hp.posPid hn) ts k hk
+
+/-! ## The refinement: every history of operations -/
+
+/-- the operations of the property (keys of `set` must be legal, see `Op.legal`) -/
+inductive Op where
+  | set (k : Key) (v : Val)
+  | del (ts : Val)
+  | iter (f : Key → Val → Val)
+  | reset
+
+def Op.legal : Op → Prop
+  | .set k _ => setKeyPanic k = false
+  | _ => True
+
+def applyOp (cfg : Cfg) (t : Tree) : Op → Tree
+  | .set k v => set cfg t k v
+  | .del ts => deleteBelow t ts
+  | .iter f => iterateKV t f
+  | .reset => reset cfg t.a.curSz
+
+/-- the same operation on a plain total map `Key → Val` (0 = absent) -/
+def specOp (m : Key → Val) : Op → Key → Val
+  | .set k v => fun k' => if k' = k then v else m k'
+  | .del ts => fun k => if m k < ts then 0#64 else m k
+  | .iter f => fun k => if m k = 0#64 then 0#64 else if f k (m k) ≠ 0#64 then f k (m k) else m k
+  | .reset => fun _ => 0#64
+
+def runOps (cfg : Cfg) (t : Tree) (ops : List Op) : Tree := ops.foldl (applyOp cfg) t
+def runSpec (m : Key → Val) (ops : List Op) : Key → Val := ops.foldl specOp m
+
+/-- one step of the refinement -/
+theorem c10_step (cfg : Cfg) (hc : CfgOk cfg) (t : Tree) (hinv : TreeInv cfg t) (hp : PidInv t)
+    (hn : t.a.nextPage ≤ 2 ^ 64) (op : Op) (hl : op.legal) :
+    TreeInv cfg (applyOp cfg t op) ∧ PidInv (applyOp cfg t op) ∧ abs (applyOp cfg t op) = specOp (abs t) op := by
+  cases op with
+  | set k v =>
+    obtain ⟨h1, h2, h3⟩ := set_spec hc t k v hinv hl
+    refine ⟨h1, hp.step h3, ?_⟩
+    funext k'
+    show lookupD (toList (set cfg t k v).root) k' = _
+    rw [h2, lookupD_ins]; rfl
+  | del ts =>
+    obtain ⟨h1, h2, _, h4, _⟩ := deleteBelow_spec hc t hinv (hp.posPid hn) ts
+    exact ⟨h1, hp.step h4, funext h2⟩
+  | iter f =>
+    obtain ⟨h1, _, h3, _⟩ := iterateKV_spec t hinv f
+    refine ⟨h1, iterateKV_pidInv t f hinv hp, ?_⟩
+    funext k
+    show lookupD (toList (iterateKV t f).root) k = _
+    rw [h3, lookupD_map_rewrite]
+    show (rewrite f (k, abs t k)).2 = _
+    unfold rewrite iterSkip iterWrite specOp
+    by_cases hv : abs t k = 0#64
+    · simp [hv]
+    · by_cases hf : f k (abs t k) = 0#64 <;> simp [hv, hf]
+  | reset =>
+    have h := reset_spec hc t.a.curSz
+    exact ⟨h.1, reset_pidInv hc _, funext fun k => abs_of_toList_sentinel h.2 k⟩
+
+/-- `c10_abs`: for every history of legal operations on a new tree — any page size with
+`4 ≤ maxKeys < 2^31`, any number of splits, recycled pages and buffer growth — the invariants hold
+and the tree denotes exactly the map the history denotes.  Side condition: fewer than 2^64 pages
+were ever allocated (the frontier never exceeds 2^64; with 80-byte pages that is 2^70 bytes). -/
+theorem c10_abs (cfg : Cfg) (hc : CfgOk cfg) (ops : List Op) (hl : ∀ op ∈ ops, op.legal)
+    (hb : ∀ pre, pre <+: ops → (runOps cfg (newTree cfg) pre).a.nextPage ≤ 2 ^ 64) :
+    TreeInv cfg (runOps cfg (newTree cfg) ops) ∧ PidInv (runOps cfg (newTree cfg) ops) ∧
+      abs (runOps cfg (newTree cfg) ops) = runSpec (fun _ => 0#64) ops := by
+  have h0 := reset_spec hc minSize.toNat
+  have key : ∀ (ops : List Op) (t : Tree) (m : Key → Val), TreeInv cfg t → PidInv t → abs t = m →
+      (∀ op ∈ ops, op.legal) → (∀ pre, pre <+: ops → (runOps cfg t pre).a.nextPage ≤ 2 ^ 64) →
+      TreeInv cfg (runOps cfg t ops) ∧ PidInv (runOps cfg t ops) ∧ abs (runOps cfg t ops) = runSpec m ops := by
+    intro ops
+    induction ops with
+    | nil => intro t m h1 h2 h3 _ _; exact ⟨h1, h2, h3⟩
+    | cons op rest ih =>
+      intro t m h1 h2 h3 hl hb
+      have hn := hb [] (List.nil_prefix)
+      obtain ⟨s1, s2, s3⟩ := c10_step cfg hc t h1 h2 hn op (hl op (by simp))
+      refine ih (applyOp cfg t op) (specOp m op) s1 s2 (by rw [s3, h3]) (fun o ho => hl o (by simp [ho])) ?_
+      intro pre hpre
+      exact hb (op :: pre) (List.cons_prefix_cons.mpr ⟨rfl, hpre⟩)
+  exact key ops (newTree cfg) _ h0.1 (reset_pidInv hc _) (funext fun k => abs_of_toList_sentinel h0.2 k) hl hb
+
+/-- Non-vacuity of the hypotheses: page size 80 (`maxKeys = 4`) is covered, the empty tree
+satisfies the invariant, and twelve inserts build a tree of height 3 (root split twice) on which
+the theorems apply; evaluated by the kernel. -/
+example : CfgOk (Cfg.ofPageSize 80) ∧ CfgOk (Cfg.ofPageSize 4096) := by
+  refine ⟨⟨by decide, by decide⟩, ⟨by decide, by decide⟩⟩
+
+example :
+    let cfg := Cfg.ofPageSize 80
+    -- (a 4 KiB buffer instead of NewTree's 1 MiB, so that the kernel can evaluate `len(t.data)`)
+    let t0 := initRoot cfg { nextPage := 1, free := [], leafKeys := 0, pagesFree := 0, dataLen := 4096, curSz := 8192 }
+    let t := (List.range 12).foldl (fun t i => set cfg t (w (i + 1)) (w (10 * (i + 1)))) t0
+    t.a.fault = none ∧ t.a.nextPage = 11 ∧ get t 7#64 = some 70#64 ∧ get t 13#64 = some 0#64 ∧
+      (walk t).length = 10 := by
+  decide +kernel
 
 /-- Non-vacuity: a concrete sorted node, insertion in the middle and overwrite. -/
 example : SortedFrom 0#64 [(3#64, 30#64), (7#64, 70#64)] ∧
